@@ -74,6 +74,24 @@ def quiet():
     return contextlib.redirect_stdout(io.StringIO())
 
 
+_F32 = None
+
+
+def canon_nan(text):
+    """every f32 NaN bit pattern -> `fNaN`: the library holds floats as Python floats, which keep a NaN but not its
+    payload (a signalling NaN read from a corrupted file comes back as a quiet one) - NaN payloads are not compared"""
+    import re
+    global _F32
+    if _F32 is None:
+        _F32 = re.compile(r"(?<![0-9a-z])f([0-9a-f]{8})(?![0-9a-f])")
+
+    def rep(m):
+        b = bytes.fromhex(m.group(1))
+        v = int.from_bytes(b, "little")
+        return "fNaN" if (v >> 23) & 0xFF == 0xFF and v & 0x7FFFFF else m.group(0)
+    return _F32.sub(rep, text)
+
+
 def first_diff(a, b, ctx=60):
     n = min(len(a), len(b))
     i = next((k for k in range(n) if a[k] != b[k]), n)
